@@ -621,3 +621,117 @@ func valPos(v ssa.Value) token.Pos {
 	}
 	return token.NoPos
 }
+
+// ---- type assertion facts ---------------------------------------------------
+
+type assertFact struct {
+	x     ssa.Value
+	t     types.Type
+	holds bool
+}
+
+// assertFactOf decodes a guard into a type-assertion fact: `_, ok := x.(T)` tested
+// through ok, or `v, _ := x.(T); v != nil`.
+func assertFactOf(g guard) (assertFact, bool) {
+	g = normGuard(g)
+	if ex, ok := g.cond.(*ssa.Extract); ok && ex.Index == 1 {
+		if ta, ok := ex.Tuple.(*ssa.TypeAssert); ok && ta.CommaOk {
+			return assertFact{ta.X, ta.AssertedType, g.val}, true
+		}
+	}
+	if v, eq, ok := nilCmp(g.cond); ok {
+		if ex, ok := v.(*ssa.Extract); ok && ex.Index == 0 {
+			if ta, ok := ex.Tuple.(*ssa.TypeAssert); ok && ta.CommaOk {
+				nonNil := eq != g.val
+				if nonNil {
+					return assertFact{ta.X, ta.AssertedType, true}, true
+				}
+				return assertFact{ta.X, ta.AssertedType, false}, true
+			}
+		}
+	}
+	return assertFact{}, false
+}
+
+func assertFacts(b *ssa.BasicBlock) []assertFact {
+	var out []assertFact
+	for _, g := range blockGuards(b) {
+		if f, ok := assertFactOf(g); ok {
+			out = append(out, f)
+		}
+	}
+	return out
+}
+
+// caseTypes returns the asserted types (on value x, or any value when x is nil)
+// whose success edge can reach block b directly: b or the nearest dominators that
+// are type-switch bodies. For a multi-type case clause several types are returned.
+func caseTypes(b *ssa.BasicBlock, x ssa.Value) []types.Type {
+	for d := b; d != nil; d = d.Idom() {
+		var ts []types.Type
+		for _, p := range d.Preds {
+			if len(p.Instrs) == 0 {
+				continue
+			}
+			ifi, ok := p.Instrs[len(p.Instrs)-1].(*ssa.If)
+			if !ok || p.Succs[0] != d {
+				continue
+			}
+			if f, ok := assertFactOf(guard{ifi.Cond, true, ifi}); ok && f.holds && (x == nil || sameVal(f.x, x)) {
+				ts = append(ts, f.t)
+			}
+		}
+		if len(ts) > 0 {
+			return ts
+		}
+	}
+	return nil
+}
+
+// hasGuard reports whether some dominating branch fact satisfies pred.
+func hasGuard(b *ssa.BasicBlock, pred func(g guard) bool) bool {
+	for _, g := range blockGuards(b) {
+		if pred(normGuard(g)) {
+			return true
+		}
+	}
+	return false
+}
+
+// derefType strips pointers.
+func derefNamed(t types.Type) string {
+	if p, ok := t.(*types.Pointer); ok {
+		t = p.Elem()
+	}
+	if n, ok := t.(*types.Named); ok {
+		return n.Obj().Name()
+	}
+	return typeStr(t)
+}
+
+// returnsOf lists the Return instructions of fn.
+func returnsOf(fn *ssa.Function) []*ssa.Return {
+	var out []*ssa.Return
+	for _, b := range fn.Blocks {
+		for _, in := range b.Instrs {
+			if r, ok := in.(*ssa.Return); ok {
+				out = append(out, r)
+			}
+		}
+	}
+	return out
+}
+
+// extractOf finds Extract #i of a tuple-valued instruction.
+func extractOf(v ssa.Value, i int) ssa.Value {
+	refs := v.Referrers()
+	if refs == nil {
+		return nil
+	}
+	for _, r := range *refs {
+		if ex, ok := r.(*ssa.Extract); ok && ex.Index == i {
+			return ex
+		}
+	}
+	return nil
+}
